@@ -8,7 +8,9 @@ CHECK = {
                  "ray marcher anchored on the reported end point",
     "level_text": "Every combination of block shape (1..3)^3 (thorough: up to 4^3 for one geometry), three cell-size "
                   "sets (unit, dyadic 1:1/2:1/4, non-dyadic 0.1:0.3:0.7), block anchors, all start points of the "
-                  "half-cell lattice including every face, edge and corner, all 124 integer directions in {-2..2}^3, "
+                  "half-cell lattice including every face, edge and corner, all 124 integer directions in {-2..2}^3 "
+                  "and, for every direction with zero components, all sign-bit combinations (+0.0 / -0.0) of them (208 "
+                  "direction vectors), "
                   "every entry classification compatible with start point and direction, five density fields "
                   "(uniform, checkerboard with empty cells, one opaque cell, all empty, graded), H-only and H+He "
                   "cross sections and target depths {1/4, equal, the code's own total, first wall crossing, 4x, tiny} "
@@ -20,7 +22,9 @@ CHECK = {
                   "callers (floor() subgrid assignment, continuous sources clamp below the top face). What the code "
                   "does for INSIDE starts exactly on an upper face is recorded under info_upper_face_* and in "
                   "NOTES.md, not judged. Exit classes must match exactly where all arithmetic is exact (dyadic "
-                  "geometry), and within round-off (sub-element containing the exact exit point) otherwise.",
+                  "geometry), and within round-off (sub-element containing the exact exit point) otherwise. A traversal that "
+                  "calls abort() or does not return within 2 s is caught (own abort(), watchdog signal) and reported as a "
+                  "violation; non-finite results fail every comparison.",
     "quick_deadline": 110,
     "thorough_deadline": 1100,
     "parts": [
